@@ -651,6 +651,11 @@ def gen_merger_case(rng, stats, focus="C04"):
     stats.bump("merger_mode_" + mode); stats.bump("merger_sources_%d" % ns)
     lines = ["reset"]
     srcs = []
+    # value tokens carry a source tag; the tags are a random permutation of the source numbers, so that the dupsort order of the
+    # values of one key is NOT the order in which the sources were added to the merger
+    tag = list(range(ns))
+    for a in range(ns - 1, 0, -1):
+        b = rng.below(a + 1); tag[a], tag[b] = tag[b], tag[a]
     for si in range(ns):
         kind = "u" if rng.chance(1, 3) else "t"
         r = rng.below(5)
@@ -670,7 +675,7 @@ def gen_merger_case(rng, stats, focus="C04"):
             ks = sorted(ks + [rng.pick(ks) for _ in range(1 + rng.below(3))]); stats.bump("merger_src_with_duplicate_keys")
         es = []
         for ei, k in enumerate(ks):
-            v = tok(si, ei)
+            v = tok(tag[si], ei)
             if mode == "lcp":
                 v = bytes(rng.pick([0x61, 0x61, 0x62]) for _ in range(rng.pick([0, 1, 2, 3, 5, 9])))
             if mode == "none":
@@ -889,13 +894,22 @@ def gen_sorter_case(rng, stats, pool=None):
     stats.bump("sorter_tmpdir_" + tdir)
     lines = ["reset", "@i sys.info",
              "s.new 1 mem=%d minmem=0 merge=%s eo=$i.eo pid=$i.pid tdir=%s%s" % (mem, merge, tdir, "" if pool is None else " pool=%d" % pool)]
+    # the configured directory disappears after set-up, at some point before a spill: the spill has nowhere to go, the library
+    # stops, and nothing may be created anywhere else (unpooled sorters only: a pooled chunk job would die on a worker thread)
+    vanish_at = rng.below(len(keys) + 1) if (pool in (None, 0) and tdir != "late" and rng.chance(1, 6)) else None
+    if vanish_at is not None:
+        stats.bump("sorter_tmpdir_vanishes_before_a_spill")
     for ai, k in enumerate(keys):
+        if vanish_at == ai:
+            lines.append("s.vanish 1")
         if merge == "lcp":
             # values of different lengths with common prefixes: the fold of two values is SHORTER than either operand
             v = bytes(rng.pick([0x61, 0x61, 0x62]) for _ in range(rng.pick([0, 1, 2, 3, 5, 9])))
         else:
             v = bytes([0x30 + (ai >> 8), ai & 0xff])
         lines.append("s.add 1 %s %s" % (hx(k), hx(v)))
+    if vanish_at == len(keys):
+        lines.append("s.vanish 1")
     via_write = rng.chance(1, 4)
     if via_write:
         lines += ["w.new 5 comp=0 bs=64 ri=2 minbs=16 pre=-", "s.write 1 5", "s.add 1 61 3030", "s.write 1 5", "w.fin 5", "r.openw 6 5", "r.it 6 20 iter"]
@@ -923,6 +937,15 @@ def oracle_sorter(res):
     S = None
     for i, r in enumerate(res):
         t = r["req"].split(" "); op = t[0]; real = r["real"]
+        if op == "s.vanish" and S is not None:
+            S["gone"] = True; continue
+        if S is not None and S.get("gone") and not S["iterating"] and op in ("s.add", "s.iter", "s.write"):
+            # does this call spill?  then the process must stop here (no directory), and that is the end of the script
+            spill = (S["n"] > 0) if op != "s.add" else (S["bytes"] + S["eo"] + len(unhx(t[2])) + len(unhx(t[3])) + 8 * (S["n"] + 1) >= S["limit"])
+            if spill:
+                if real != "abort":
+                    fails.append(("C06", "the configured temporary directory no longer exists and %s had to spill: the call returned %s instead of stopping (a chunk file was created somewhere else, or the data was dropped)" % (op, real), i))
+                break
         if real == "asan" or real.startswith("crash") or real == "abort":
             fails.append(("C06", "sorter operation %s died: %s %s" % (op, real, r.get("stderr", "")[-300:]), i)); break
         if op == "s.new":
